@@ -381,9 +381,8 @@ theorem sendAnnounce_roles (p p' : Port) (s : InstState) (q q' : List FwdTlv) (l
   split at hr
   · rename_i hm
     have hma : p.st.isMaster = true := (isMaster_iff _).2 hm
-    obtain ⟨r, _, he⟩ := map_ok _ _ _ hr
-    simp only [Prod.mk.injEq] at he
-    rw [← he.1, ← he.2.1]
+    simp only [Except.ok.injEq, Prod.mk.injEq] at hr
+    rw [← hr.1, ← hr.2.1]
     refine ⟨?_, rfl, rfl, fun h => h, rfl, fun h => h⟩
     have : ∀ (m : Msg) (r : Out), ([r, Out.sendGeneral (encode m) false] : List Out) = [r] ++ [Out.sendGeneral (encode m) false] :=
       fun _ _ => rfl
@@ -547,6 +546,50 @@ theorem bmcaRegister_own (l : FML) (acc : Option (List Nat)) (a : Ann) : (bmcaRe
       · rfl
       · split <;> rfl
   · rfl
+
+theorem storePath_spec (s1 s2 : InstState) (pt : Option Tlv) (h : storePath s1 pt = .ok s2) :
+    (pt = none ∧ s2 = s1) ∨
+    ∃ t, pt = some t ∧ s2 = { s1 with pathTrace := pathOf t.value } ∧ (pathOf t.value).length ≤ PATH_TRACE_CAP := by
+  unfold storePath at h
+  cases pt with
+  | none => simp only [Except.ok.injEq] at h; exact Or.inl ⟨rfl, h.symm⟩
+  | some t =>
+    simp only at h
+    split at h
+    · cases h
+    · rename_i hl
+      simp only [Except.ok.injEq] at h
+      exact Or.inr ⟨t, rfl, h.symm, Nat.le_of_not_lt hl⟩
+
+/-- the three ways `handle_announce` treats the data sets -/
+theorem announceUpdate_cases (p : Port) (s s1 : InstState) (m : Msg) (a : Ann) (loop : Bool)
+    (h : p.announceUpdate s m a = .ok (s1, loop)) :
+    (¬ (p.st.isSlave = true ∧ a.hdr.src = s.parent.parentPort) ∧ s1 = s ∧ loop = false) ∨
+    (p.st.isSlave = true ∧ a.hdr.src = s.parent.parentPort ∧ loopsBack s (pathTlvOf s m) = true ∧ s1 = s ∧ loop = true) ∨
+    (p.st.isSlave = true ∧ a.hdr.src = s.parent.parentPort ∧ loopsBack s (pathTlvOf s m) = false ∧ loop = false ∧
+      ∃ s2, s.applyParent a = .ok s2 ∧ storePath s2 (pathTlvOf s m) = .ok s1) := by
+  unfold Port.announceUpdate at h
+  by_cases hc : p.st.isSlave = true ∧ a.hdr.src = s.parent.parentPort
+  · rw [if_pos hc] at h
+    cases hl : loopsBack s (pathTlvOf s m) with
+    | true =>
+      rw [hl] at h
+      simp only [if_true, Except.ok.injEq, Prod.mk.injEq] at h
+      exact Or.inr (Or.inl ⟨hc.1, hc.2, rfl, h.1.symm, h.2.symm⟩)
+    | false =>
+      rw [hl] at h
+      simp only [Bool.false_eq_true, if_false] at h
+      cases hap : s.applyParent a with
+      | error e => rw [hap] at h; cases h
+      | ok s2 =>
+        rw [hap] at h
+        simp only at h
+        obtain ⟨s3, hs3, he⟩ := map_ok _ _ _ h
+        simp only [Prod.mk.injEq] at he
+        exact Or.inr (Or.inr ⟨hc.1, hc.2, rfl, he.2.symm, s2, rfl, by rw [hs3, he.1]⟩)
+  · rw [if_neg hc] at h
+    simp only [Except.ok.injEq, Prod.mk.injEq] at h
+    exact Or.inl ⟨hc, h.1.symm, h.2.symm⟩
 
 theorem announceRegister_roles (p : Port) (m : Msg) (a : Ann) :
     (∀ o ∈ (p.announceRegister m a).2, o.plain) ∧ Keeps p (p.announceRegister m a).1 := by
